@@ -580,10 +580,10 @@ func firstArg(s string) string {
 
 // callValue calls a function value (closure, bound method, parameter of function type).
 func (ex *Exec) callValue(p *Path, fv Value, args []Value, call *ast.CallExpr) []Value {
-	if cl, ok := closures[fv.T]; ok {
+	if cl, ok := ex.closures[fv.T]; ok {
 		return ex.inlineClosure(p, cl, args, call.Pos())
 	}
-	if bm, ok := boundMethods[fv.T]; ok {
+	if bm, ok := ex.boundMethods[fv.T]; ok {
 		return ex.callFunc(p, bm.fn, &bm.recv, args, call)
 	}
 	sig, _ := fv.Ty.Underlying().(*types.Signature)
